@@ -152,6 +152,40 @@ def classify(body, start_call):
     return "insensitive", "order-insensitive consumers only"
 
 
+ORDER_FREE_SINKS = {"insert", "extend", "contains", "contains_key", "get", "get_mut", "len", "is_empty", "clone", "to_owned",
+                    "to_string", "deref", "deref_mut", "borrow", "as_ref", "as_str", "eq", "ne", "cloned", "iter", "map_or",
+                    "unwrap_or_default", "into_iter", "next", "branch", "from_residual", "drop", "drop_in_place", "default",
+                    "cmp", "partial_cmp", "hash", "entry", "or_default", "or_insert", "or_insert_with", "remove", "into"}
+
+
+def loop_body_order_sensitive(body, start_call):
+    """for a `for x in <hash iteration>` loop: calls in the loop that take a value derived from the iterated element and
+    are not order-insensitive sinks (inserting into a set/map, membership tests ...).  Vec::push / write / format etc.
+    make the result depend on the iteration order."""
+    chain, derived = consumer_chain(body, start_call)
+    nexts = [c for c in chain if method_name(c) == "next"]
+    if not nexts:
+        return ["no-loop"]
+    loop = cfg.loop_containing(body, nexts[0].bb)
+    if loop is None:
+        return ["no-loop"]
+    elem = forward_derived(body, [nexts[0].dest[0]])
+    out = []
+    for c in body.calls():
+        if c.bb not in loop[1] or c.bb == nexts[0].bb:
+            continue
+        if not any(a[0] in ("c", "m") and a[1][0] in elem for a in c.args):
+            continue
+        n = method_name(c)
+        st = c.self_ty or ""
+        if n in ORDER_FREE_SINKS:
+            if n in ("insert", "extend", "remove", "entry") and not (st.lstrip("&mut ").startswith(SET_TYPES) or "Set<" in st or "Map<" in st):
+                out.append("%s on %s" % (n, st[:40]))
+            continue
+        out.append(n)
+    return sorted(set(out))
+
+
 def display_only_in_logs(facts, tyname):
     """every construction of a fmt Argument for `tyname` (new_display/new_debug) happens inside a log macro"""
     n = 0
@@ -209,6 +243,13 @@ def check(ctx):
                         ctx.bad("R24.1", key + "|display-escapes-logging",
                                 "the Display/Debug impl iterating a RandomState container is formatted outside log "
                                 "macros at %s" % bad, where(b, c.line))
+                        continue
+                if "fmt::" not in key:
+                    offenders = loop_body_order_sensitive(b, c)
+                    if offenders:
+                        ctx.bad("R24.1", key + "|loop-body", "the reasoned exception for this loop (its body only feeds sets / "
+                                "maps) no longer holds: the loop body calls %s with the iterated elements" % offenders,
+                                where(b, c.line))
                         continue
                 ctx.ok("R24.1", key, "reasoned exception: " + ALLOW[key], where(b, c.line))
                 seen_keys.add(key)
